@@ -85,7 +85,7 @@ theorem plaintext_noncreate_noop (n : Node) (src : Nat) (c : Cell B) (ch : Choic
 theorem created_not_outstanding_noop (n : Node) (src : Nat) (c : Cell B) (ch : Choice)
     (ident key authPk dhRef : Nat) (hp : c.plaintext = true)
     (hm : A.parse c.body = some (.created ident key authPk dhRef))
-    (h1 : popCreate n.creates ident = none)
+    (h1 : popCreate n.creates ident c.cid = none)
     (h2 : ∀ circ, get n.circuits c.cid = some circ → ¬ (circ.retry ≠ 0 ∧ circ.retry = ident)) :
     processCell A n src c ch = (n, []) := by
   unfold processCell
@@ -101,6 +101,26 @@ theorem created_not_outstanding_noop (n : Node) (src : Nat) (c : Cell B) (ch : C
     | some circ =>
       have := h2 circ hc
       simp [this]
+
+/-- searching the 16-bit identifier space is futile: a CREATED that names a circuit id which is neither the id of a
+    pending extension nor an own circuit is a no-op for EVERY identifier (the repaired on_created, cc86df2, requires the
+    CREATED to name the circuit id this node created; before, any cell carrying the right 16 bits completed the
+    extension) -/
+theorem created_for_unknown_circuit_id_never_completes_an_extension (n : Node) (src : Nat) (c : Cell B) (ch : Choice)
+    (ident key authPk dhRef : Nat) (hp : c.plaintext = true)
+    (hm : A.parse c.body = some (.created ident key authPk dhRef))
+    (hpend : ∀ rq ∈ n.creates, rq.toId ≠ c.cid) (hown : get n.circuits c.cid = none) :
+    processCell A n src c ch = (n, []) := by
+  have hnone : ∀ l : List CreateReq, (∀ rq ∈ l, rq.toId ≠ c.cid) → popCreate l ident c.cid = none := by
+    intro l
+    induction l with
+    | nil => intro _; rfl
+    | cons r t ih =>
+      intro h
+      have hr : ¬ (r.number = ident ∧ r.toId = c.cid) := fun hh => h r List.mem_cons_self hh.2
+      simp only [popCreate, hr, if_false, ih (fun rq hrq => h rq (List.mem_cons_of_mem _ hrq))]
+  exact created_not_outstanding_noop A n src c ch ident key authPk dhRef hp hm (hnone _ hpend)
+    (fun circ hc => by rw [hown] at hc; cases hc)
 
 /-! ## a request to open a circuit under an id that is in use is refused -/
 
@@ -260,20 +280,80 @@ theorem destroy_only_by_neighbour (n : Node) (signer cid : Nat) (ok : Bool) (rea
             exact ⟨nx', pv, rfl, hp, hs.symm, rfl⟩
           · simp [hs] at hv
 
-/-- with remove_tunnel_delay > 0 a destroy (or any other removal) pops nothing in the step that accepts it: the
-    entries keep routing until the delayed pop — only on_created's conversion removes its exit socket at once -/
-theorem deferred_removal_pops_nothing (n : Node) (hd : n.defer = true) (a b cid : Nat) :
-    (rmRelays n a b).relays = n.relays ∧ (rmExit n cid).exits = n.exits ∧
-    (∀ k, (get (rmCircuit n cid).circuits k).isSome = (get n.circuits k).isSome) := by
-  refine ⟨by simp [rmRelays, hd], by simp [rmExit, hd], ?_⟩
-  intro k
-  simp only [rmCircuit, hd, if_true]
-  cases hc : get n.circuits cid with
-  | none => rfl
-  | some c =>
-    by_cases hk : k = cid
-    · subst hk; simp [get_set_self, hc]
-    · simp [get_set_other _ _ _ _ hk]
+/-- remove_tunnel_delay > 0, part 1: a delayed pop removes a relay / exit entry only if a remove_* task for exactly that
+    id is sleeping (`doomed`); without one the pop event changes nothing -/
+theorem delayed_pop_needs_a_scheduled_removal (n : Node) (cid : Nat) :
+    (n.doomed.contains (1, cid) = false → popRelay n cid = n) ∧
+    (n.doomed.contains (2, cid) = false → popExit n cid = n) ∧
+    (n.doomed.contains (0, cid) = false → popCircuit n cid = n) := by
+  refine ⟨fun h => ?_, fun h => ?_, fun h => ?_⟩
+  · unfold popRelay; rw [h]; rfl
+  · unfold popExit; rw [h]; rfl
+  · unfold popCircuit; rw [h]; rfl
+
+/-- remove_tunnel_delay > 0, part 2: a destroy schedules removals only when it is authorised: with a bad signature or a
+    signer that is not the adjacent peer of an entry named `cid`, no remove_* task is started (and by
+    `destroy_unauthorised_noop` nothing else changes either); an accepted destroy schedules exactly the named relay pair,
+    exit socket or circuit -/
+theorem destroy_schedules_only_named_entries (n : Node) (signer cid : Nat) (ok : Bool) (reason : Nat) :
+    let r := onDestroy (B := B) n signer cid ok reason
+    r.1.doomed = n.doomed ∨
+    (ok = true ∧ Adjacent n signer cid ∧
+      ∃ extra, r.1.doomed = n.doomed ++ extra ∧ ∀ x ∈ extra, x.2 = cid ∨ ∃ nx, get n.relays cid = some nx ∧ x = (1, nx.next)) := by
+  by_cases hauth : ok = true ∧ Adjacent n signer cid
+  · right
+    refine ⟨hauth.1, hauth.2, ?_⟩
+    unfold onDestroy
+    simp only [hauth.1, Bool.not_true, Bool.false_eq_true, if_false]
+    cases hv : viaRelay n signer cid with
+    | some nx =>
+      have hnx : get n.relays cid = some nx := by
+        unfold viaRelay at hv
+        cases hr : get n.relays cid with
+        | none => simp [hr] at hv
+        | some nx' =>
+          simp only [hr] at hv
+          cases hp : get n.relays nx'.next with
+          | none => simp [hp] at hv
+          | some pv =>
+            simp only [hp] at hv
+            split at hv
+            · cases hv; rfl
+            · cases hv
+      by_cases hd : n.defer = true
+      · refine ⟨[(1, cid), (1, nx.next)], by simp [rmRelays, hd], ?_⟩
+        intro x hx
+        simp at hx
+        cases hx with
+        | inl h => exact Or.inl (by rw [h])
+        | inr h => exact Or.inr ⟨nx, hnx, h⟩
+      · exact ⟨[], by simp [rmRelays, hd], fun x hx => by cases hx⟩
+    | none =>
+      unfold destroyLocal destroyCircuit
+      by_cases hd : n.defer = true
+      · cases he : get n.exits cid with
+        | some e =>
+          by_cases hs : signer = e.hop.peer
+          · exact ⟨[(2, cid)], by simp [hs, rmExit, hd], fun x hx => by simp at hx; exact Or.inl (by rw [hx])⟩
+          · simp only [hs, if_false]
+            cases hc : get n.circuits cid with
+            | none => exact ⟨[], by simp, fun x hx => by cases hx⟩
+            | some c =>
+              by_cases hp : c.firstHop.map Hop.peer = some signer
+              · exact ⟨[(0, cid)], by simp [hp, rmCircuit, hd, hc], fun x hx => by simp at hx; exact Or.inl (by rw [hx])⟩
+              · exact ⟨[], by simp [hp], fun x hx => by cases hx⟩
+        | none =>
+          cases hc : get n.circuits cid with
+          | none => exact ⟨[], by simp, fun x hx => by cases hx⟩
+          | some c =>
+            by_cases hp : c.firstHop.map Hop.peer = some signer
+            · exact ⟨[(0, cid)], by simp [hp, rmCircuit, hd, hc], fun x hx => by simp at hx; exact Or.inl (by rw [hx])⟩
+            · exact ⟨[], by simp [hp], fun x hx => by cases hx⟩
+      · refine ⟨[], ?_, fun x hx => by cases hx⟩
+        simp only [List.append_nil]
+        repeat' (first | rfl | split | simp only [rmExit, rmCircuit, hd])
+  · left
+    rw [destroy_unauthorised_noop n signer cid ok reason hauth]
 
 /-! ## traffic leaves only through the exit entry it was keyed for; replies are bound to that entry -/
 
@@ -605,9 +685,19 @@ theorem queue_own_step (n : Node) (e : Ev B) (hq : QueueOwn n) : QueueOwn (step 
     refine qo_same ?_ hq
     simp only [step, expireRetry]
     repeat' (first | rfl | exact rmCircuit_exits _ _ | (rw [sendMsg_exits]) | split | dsimp only)
-  | popCircuit cid => exact qo_same rfl hq
-  | popRelay cid => exact qo_same rfl hq
-  | popExit cid => exact qo_del cid rfl hq
+  | popCircuit cid =>
+    refine qo_same ?_ hq
+    simp only [step, popCircuit]
+    split <;> rfl
+  | popRelay cid =>
+    refine qo_same ?_ hq
+    simp only [step, popRelay]
+    split <;> rfl
+  | popExit cid =>
+    simp only [step, popExit]
+    split
+    · exact qo_del cid rfl hq
+    · exact hq
 
 /-- … hence it holds after every history (unbounded, any interleaving of any number of circuits) from a node
     whose queues are empty, in particular from the initial node -/
@@ -697,7 +787,7 @@ theorem other_circuits_cell_noop_at_relay (L : AeadLaws A) (n : Node) (src cid :
     equality of the recorded hop stands for object identity).  A peer that re-creates the id, even one that claims
     the previous owner's public key in its CREATE, gets a different entry and is left alone. -/
 theorem extension_completes_only_on_the_requesting_entry (n : Node) (cid ident key authPk dhRef : Nat) (ch : Choice)
-    (rq : CreateReq) (rest : List CreateReq) (hpop : popCreate n.creates ident = some (rq, rest)) :
+    (rq : CreateReq) (rest : List CreateReq) (hpop : popCreate n.creates ident cid = some (rq, rest)) :
     let r := onCreated A n cid ident key authPk dhRef ch
     (r.1.relays = n.relays ∧ r.1.exits = n.exits ∧ r.2 = []) ∨
     (∃ e, get n.exits rq.fromId = some e ∧ e.hop = rq.peer) := by
@@ -717,7 +807,7 @@ theorem extension_completes_only_on_the_requesting_entry (n : Node) (cid ident k
     (`n.defer` is not consulted) — so by `extension_completes_only_on_the_requesting_entry` any later CREATED for a
     request with the same `fromId` finds no exit entry and installs nothing -/
 theorem conversion_removes_the_exit_socket_at_once (n : Node) (cid ident key authPk dhRef : Nat) (ch : Choice)
-    (rq : CreateReq) (rest : List CreateReq) (e : ExitE) (hpop : popCreate n.creates ident = some (rq, rest))
+    (rq : CreateReq) (rest : List CreateReq) (e : ExitE) (hpop : popCreate n.creates ident cid = some (rq, rest))
     (he : get n.exits rq.fromId = some e) (hsame : e.hop = rq.peer) (hfree : n.inUse rq.toId = false) :
     let r := onCreated A n cid ident key authPk dhRef ch
     get r.1.exits rq.fromId = none ∧ (get r.1.relays rq.fromId).isSome = true := by
@@ -733,7 +823,7 @@ theorem conversion_removes_the_exit_socket_at_once (n : Node) (cid ident key aut
     entry is as before (no freshness assumption needed for this; what is NOT excluded is that `rq.toId` or `rq.fromId`
     already named a relay entry of another circuit — `_generate_circuit_id` only avoids ids in `circuits`) -/
 theorem extension_touches_only_its_ids (n : Node) (cid ident key authPk dhRef : Nat) (ch : Choice)
-    (rq : CreateReq) (rest : List CreateReq) (hpop : popCreate n.creates ident = some (rq, rest)) :
+    (rq : CreateReq) (rest : List CreateReq) (hpop : popCreate n.creates ident cid = some (rq, rest)) :
     let r := onCreated A n cid ident key authPk dhRef ch
     (∀ k, k ≠ rq.toId → k ≠ rq.fromId → get r.1.relays k = get n.relays k) ∧
     (∀ k, k ≠ rq.fromId → get r.1.exits k = get n.exits k) := by
@@ -758,7 +848,7 @@ theorem extension_touches_only_its_ids (n : Node) (cid ident key authPk dhRef : 
 /-- the extending side of "an id that is in use is never replaced": if the id reserved for the next hop has been
     taken meanwhile (by any of the three tables), the late CREATED installs nothing -/
 theorem extension_never_overwrites_a_used_id (n : Node) (cid ident key authPk dhRef : Nat) (ch : Choice)
-    (rq : CreateReq) (rest : List CreateReq) (hpop : popCreate n.creates ident = some (rq, rest))
+    (rq : CreateReq) (rest : List CreateReq) (hpop : popCreate n.creates ident cid = some (rq, rest))
     (huse : n.inUse rq.toId = true) :
     let r := onCreated A n cid ident key authPk dhRef ch
     r.1.relays = n.relays ∧ r.1.exits = n.exits ∧ r.1.circuits = n.circuits ∧ r.2 = [] := by
